@@ -867,3 +867,21 @@ package ice
 //@   loop 0 invariant[C08,C13,C18] len(segmentBases) == len(segments) && forall(i, 0, rangeindex + 1, segmentBases[i] == segments[i])
 //@ func (*Merger).WriteTo
 //@   requires[C08,C13,C18] m != nil && forall(i, 0, len(m.segments), m.segments[i] != nil)
+//@
+//@ // ---- Count() is a position in the writer's own stream (C04, C10) ----
+//@ // n counts exactly the bytes this writer accepted since it was created
+//@ ghostfield * wbase int
+//@ typeinv countHashWriter self.n == outlen(self) - wbase(self)
+//@ // (restates the wrapped writer's own invariant where the wrapped writer is one of ours)
+//@ typeinv countHashWriter isCHW(self.w) ==> cast(self.w, "*countHashWriter").n == outlen(self.w) - wbase(self.w) && cast(self.w, "*countHashWriter").w != self.w
+//@ func newCountHashWriter
+//@   requires[C04,C10,C11] isCHW(w) ==> cast(w, "*countHashWriter").n == outlen(w) - wbase(w) && cast(w, "*countHashWriter").w != w
+//@ func persistFooter
+//@   requires[C04,C10,C11] isCHW(writerIn) ==> cast(writerIn, "*countHashWriter").n == outlen(writerIn) - wbase(writerIn) && cast(writerIn, "*countHashWriter").w != writerIn
+//@ func newCountHashWriter
+//@   ghostset wbase(result0) = outlen(result0)
+//@   ensures[C04,C10,C11] wbase(result0) == outlen(result0)
+//@ func (*countHashWriter).Write
+//@   constructs c
+//@   requires[C04,C10,C11] c.n == outlen(c) - wbase(c) && c.w != c && dyntype(c) == typetag("*countHashWriter")
+//@   requires[C04,C10,C11] isCHW(c.w) ==> cast(c.w, "*countHashWriter").n == outlen(c.w) - wbase(c.w) && cast(c.w, "*countHashWriter").w != c.w
